@@ -22,7 +22,7 @@ def f64(x):
 
 
 class Experiment:
-    def __init__(self, seed, datatype='I', instruments=1, scatter_gain=None):
+    def __init__(self, seed, datatype='I', instruments=1, scatter_gain=None, wide=0):
         self.dir = tempfile.mkdtemp(prefix='verif_xl_')
         self.r = np.random.RandomState(seed % (1 << 31))
         self.datatype = datatype
@@ -31,6 +31,9 @@ class Experiment:
             fl = ['FL1', 'FL2', 'FL3'] if i == 0 else ['GFP-A', 'RFP-A']
             self.inst['FC%03d' % (i + 1)] = {'fsc': 'FSC' if i == 0 else 'FSC-A', 'ssc': 'SSC' if i == 0 else 'SSC-A', 'fl': fl,
                                             'time': 'TIME' if i == 0 else 'Time'}
+        if wide:
+            # an instrument with many fluorescence channels (more histogram panels than default colours)
+            self.inst['FCW'] = {'fsc': 'FSC-W', 'ssc': 'SSC-W', 'fl': ['W%02d' % k for k in range(1, wide + 1)], 'time': 'Time'}
         self.scatter_gain = scatter_gain
         self.files = {}
 
@@ -61,10 +64,14 @@ class Experiment:
                 centers = np.array([300., 440., 580., 720., 860.]) - 15 * k    # channel numbers on a 4-decade log amplifier
                 v = centers[pop] + r.normal(0, 6, n)
             else:
-                v = r.normal(400 + 80 * k, 60, n)
+                v = r.normal(400 + 80 * (k % 4) + 15 * (k // 4), 60, n)
             v = np.clip(v, 0, res - 1)
             if kind != 'beads':
-                v[:3] = [0, res - 1, res - 1]          # saturated events
+                v[:3] = [0, res - 1, res - 1]          # saturated events (inside the part the start/end trim drops)
+                if n > 420:
+                    # ... and saturated events that survive the trim, at other places for every channel
+                    j = 300 + 6 * k
+                    v[j:j + 4] = [0, res - 1, res - 1, 0]
             cols.append(v)
         tcol = np.sort(r.uniform(0, 900, n))
         if time_order == 'wrap':
@@ -87,6 +94,7 @@ class Experiment:
                 idx = r.choice(np.arange(260, n - 110), size=max(4, n // 25), replace=False)
                 data[idx[::2], 0] = res + r.uniform(0, 400, len(idx[::2]))
                 data[idx[1::2], 1] = -r.uniform(50, 300, len(idx[1::2]))
+                data[7, 1] = -900.0        # the most negative scatter value sits among the events the start/end trim drops
             if self.datatype == 'D':
                 ev = [[f64(v) for v in row] for row in data]
                 widths = [64] * D
